@@ -20,18 +20,20 @@ Local Open Scope N_scope.
 Definition bytes_ok (bs : list N) : Prop := Forall (fun b => b < 256) bs.
 
 (** [has_schema s v]: [v] is an in-memory value of the Rust type described by
-    [s]; integers are bounded by their width, sequences by wincode's
-    preallocation limit (beyond it [serialize] returns [Err] and ctbuilder
-    fails the build: no generated parser exists). *)
+    [s]; integers are bounded by their width, the LENGTH of a sequence fits a
+    [usize] = [u64] (it is one, in memory).  No other bound: since /repo 40b4e42
+    the configurations of ctbuilder have no preallocation size limit (before,
+    [serialize] returned [Err] for any sequence above 4 MiB and the build
+    failed — see [within_limit], [decode_limited] and the statements at the end). *)
 Fixpoint has_schema (s : schema) (v : value) {struct s} : Prop :=
   match s, v with
   | SU8, VInt n => n < 256
   | SInt w, VInt n => n < iw_max w
   | SBool, VBool _ => True
-  | SString, VBytes l => N.of_nat (length l) <= PREALLOC_LIMIT /\ bytes_ok l
+  | SString, VBytes l => N.of_nat (length l) < iw_max W64 /\ bytes_ok l
   | SOption _, VNone => True
   | SOption s', VSome v' => has_schema s' v'
-  | SVec s', VList l => N.of_nat (length l) <= PREALLOC_LIMIT /\ Forall (has_schema s') l
+  | SVec s', VList l => N.of_nat (length l) < iw_max W64 /\ Forall (has_schema s') l
   | STuple ss, VTuple vs =>
       (fix go (ss : list schema) (vs : list value) {struct ss} : Prop :=
          match ss, vs with
@@ -126,3 +128,65 @@ Definition table_reconstitute_stmt : Prop :=
   forall c t v junk,
     has_schema (state_table_schema t) v ->
     reconstitute c (state_table_schema t) (encode c (state_table_schema t) v ++ junk) = Done v.
+
+(* ------------------------------------------ a configuration WITH a size limit *)
+
+(** [_reconstitute] under a configuration whose preallocation size limit is
+    [limit] (ctbuilder before /repo 40b4e42: [Configuration::default()], 4 MiB) *)
+Definition reconstitute_limited (limit : N) (esz : schema -> N) (c : cfg) (s : schema) (bs : list N)
+  : outcome value :=
+  match decode_limited limit esz c s bs with
+  | Some (v, _) => Done v
+  | None => Panic
+  end.
+
+(** [wincode::config::serialize] under such a configuration: the same check,
+    sequence by sequence, on the value being written ([Err] = the build fails) *)
+Definition serialize_limited (limit : N) (esz : schema -> N) (c : cfg) (s : schema) (v : value)
+  : option (list N) :=
+  if within_limit limit esz s v then Some (encode c s v) else None.
+
+(** the limited reader is EXACTLY the unlimited one restricted to values all of
+    whose sequences pass the size check *)
+Definition decode_limited_exact_stmt : Prop :=
+  forall limit esz c s bs,
+    decode_limited limit esz c s bs =
+    match decode c s bs with
+    | Some (v, rest) => if within_limit limit esz s v then Some (v, rest) else None
+    | None => None
+    end.
+
+(** below the limit the two readers are the same function *)
+Definition decode_limited_agrees_below_limit_stmt : Prop :=
+  forall limit esz c s bs,
+    (forall v rest, decode c s bs = Some (v, rest) -> within_limit limit esz s v = true) ->
+    decode_limited limit esz c s bs = decode c s bs.
+
+Definition codec_roundtrip_within_limit_stmt : Prop :=
+  forall limit esz c s v rest,
+    schema_wf s = true -> has_schema s v -> within_limit limit esz s v = true ->
+    decode_limited limit esz c s (encode c s v ++ rest) = Some (v, rest).
+
+(** THE FORMER GAP: with the default limit the round trip fails for a legal
+    value — a [Vec<u64>] of [limit / 8 + 1] words (a bit vector of more than
+    33 554 432 bits: [core_reduces] of a 7200-state, 4800-production table) is
+    written and read back by the unlimited codec and refused by the limited one,
+    in both integer encodings *)
+Definition codec_roundtrip_limited_refuted_stmt : Prop :=
+  exists s v,
+    schema_wf s = true /\ has_schema s v /\
+    forall c rest,
+      decode c s (encode c s v ++ rest) = Some (v, rest) /\
+      decode_limited PREALLOC_LIMIT mem_size c s (encode c s v ++ rest) = None.
+
+(** what the check uses when it is told that the limit is (again) in force:
+    the build fails ([serialize] = Err) exactly when the limited reader refuses
+    the bytes the unlimited writer produces; and when it does not fail,
+    [_reconstitute] under the limit returns the value *)
+Definition limited_build_fails_iff_stmt : Prop :=
+  forall limit esz c s v rest,
+    schema_wf s = true -> has_schema s v ->
+    (serialize_limited limit esz c s v = None <->
+     decode_limited limit esz c s (encode c s v ++ rest) = None) /\
+    (serialize_limited limit esz c s v <> None ->
+     reconstitute_limited limit esz c s (encode c s v ++ rest) = Done v).
